@@ -15,7 +15,7 @@ from common import log  # noqa: E402
 
 TRUSTED_COMMON = [
     "Coq 8.16.1 kernel (coqc, full .vo build; vm_compute used, native_compute not used)",
-    "no axioms declared by the development; `Print Assumptions` output of every property theorem is in coverage.assumptions_printed",
+    "no axioms declared by the development; the `Print Assumptions` output of every property theorem is in coverage.assumptions_printed (the check fails if any block is not `Closed under the global context` or if a block is missing)",
     "src2v translator (clang-16 JSON AST -> Gallina over Z with explicit wraps, coq/Base/Word.v); checked by running every generated function against the compiled code (correspondence)",
     "hand-written models under coq/Model are modelled-not-verified; tied by the correspondence runs reported here",
     "C/Python harness, OCaml/Coq evaluation of the model (vm_compute inside coqc)",
@@ -126,9 +126,17 @@ def prove_file(mod, ctx, pf, build_deps=True):
             res["discharged"] = done
     else:
         res["discharged"] = len(thms)
-    blocks = re.findall(r"(Closed under the global context|Axioms:\n(?:.+\n?)+?)(?=\n\S|\Z)", r.stdout)
+    # one block per `Print Assumptions` command: either the closed-context line or an `Axioms:` list (indented lines)
+    blocks = re.findall(r"^(Closed under the global context|Axioms:\n(?:[ \t]+.*\n?)+)", r.stdout, flags=re.M)
     res["assumptions_printed"] = [" ".join(b.split()) for b in blocks]
-    res["ok"] = (r.returncode == 0) and ok and not forb
+    npa = len(re.findall(r"^\s*Print Assumptions\b", re.sub(r"\(\*.*?\*\)", "", open(os.path.join(d, pf)).read(), flags=re.S), flags=re.M))
+    if r.returncode == 0 and npa != len(blocks):
+        res["errors"].append("%s: %d Print Assumptions commands but %d blocks of output captured" % (pf, npa, len(blocks)))
+    # the development may rely on no axiom at all (none is needed so far): any `Axioms:` block fails the check and names them
+    for b in res["assumptions_printed"]:
+        if not b.startswith("Closed under the global context"):
+            res["errors"].append("%s: a property theorem depends on axioms: %s" % (pf, b[:400]))
+    res["ok"] = (r.returncode == 0) and ok and not forb and not [e for e in res["errors"] if "axioms" in e or "blocks of output" in e]
     return res
 
 
